@@ -15,6 +15,7 @@ NUM_SPELLINGS = [
     ("0", 0), ("1", 1), ("2", 2), ("3", 3), ("5", 5), ("7", 7), ("10", 10), ("12", 12), ("100", 100), ("255", 255),
     ("7.", 7.0), ("007", 7), (".5", 0.5), ("0.25", 0.25), ("1.5", 1.5), ("2.75", 2.75), ("5E1", 50.0), ("1E2", 100.0),
     ("25E-1", 2.5), ("1.5E+1", 15.0), ("3.0", 3.0), ("0.125", 0.125), ("11", 11), ("13", 13), ("4", 4), ("6", 6), ("9", 9),
+    ("1234567", 1234567), ("3.141593", 3.141593), ("16777216", 16777216), ("1E-3", 0.001), ("2.5E-2", 0.025), ("123456.75", 123456.75),
 ]
 INT_SPELLINGS = [s for s in NUM_SPELLINGS if float(s[1]) == int(s[1]) and "E" not in s[0] and "." not in s[0]]
 HEX_SPELLINGS = ["0", "1", "F", "1F", "FF", "100", "7FFF", "8000", "FFFF", "A5", "0F"]
